@@ -49,6 +49,9 @@ pub enum Strat {
     HonestFold,
     LongRemainder { extra: u8 },
     RemainderAfterQueries,
+    /// like RemainderAfterQueries, but the remainder commitment is not sent at all (the coin is never
+    /// reseeded with it): nothing binds the remainder
+    RemainderNoCommitment,
     /// committed layers l >= at come from the honest chain of a polynomial within the bound
     SwitchLayer { at: u16 },
     /// trees commit to the chain of f, rows are opened from the chain of the low-degree polynomial
@@ -67,6 +70,7 @@ impl Strat {
             Strat::HonestFold => "honest-fold",
             Strat::LongRemainder { .. } => "long-remainder",
             Strat::RemainderAfterQueries => "remainder-after-queries",
+            Strat::RemainderNoCommitment => "remainder-no-commitment",
             Strat::SwitchLayer { .. } => "switch-layer",
             Strat::OpenOtherChain { .. } => "open-other-chain",
             Strat::UnboundLayer { .. } => "unbound-layer",
@@ -125,7 +129,7 @@ fn el_strategy() -> BoxedStrategy<[X; 3]> {
 fn strat_strategy(fam: Family) -> BoxedStrategy<Strat> {
     match fam {
         Family::HonestFold => prop_oneof![3 => Just(Strat::HonestFold), 2 => (1u8..=7).prop_map(|extra| Strat::LongRemainder { extra })].boxed(),
-        Family::RemainderAfterQueries => Just(Strat::RemainderAfterQueries).boxed(),
+        Family::RemainderAfterQueries => prop_oneof![2 => Just(Strat::RemainderAfterQueries), 1 => Just(Strat::RemainderNoCommitment)].boxed(),
         Family::SwitchLayer => any::<u16>().prop_map(|at| Strat::SwitchLayer { at }).boxed(),
         Family::Tamper => prop_oneof![
             1 => any::<u16>().prop_map(|from| Strat::OpenOtherChain { from }),
@@ -412,6 +416,10 @@ where
             plan.remainder = RemMode::Long { extra: e };
         },
         Strat::RemainderAfterQueries => plan.remainder = RemMode::AfterQueries,
+        Strat::RemainderNoCommitment => {
+            plan.remainder = RemMode::AfterQueries;
+            plan.omit_rem_commitment = true;
+        },
         Strat::SwitchLayer { at } => {
             let at = vf_core::pick_index(*at, big_l + 1);
             plan.g = Some(g.clone());
@@ -467,7 +475,7 @@ where
     if sorted.len() < out.positions.len() {
         obs.label("duplicate-positions");
     }
-    if matches!(strat, Strat::RemainderAfterQueries) {
+    if matches!(strat, Strat::RemainderAfterQueries | Strat::RemainderNoCommitment) {
         obs.label(if out.last_positions <= s.rem_size() { "last-positions<=remainder-size" } else { "last-positions>remainder-size" });
     }
     let verdict = &out.verdict;
@@ -534,6 +542,7 @@ fn self_family_name(s: &Strat) -> &'static str {
     match s {
         Strat::HonestFold => "honest-fold",
         Strat::RemainderAfterQueries => "remainder-after-queries",
+        Strat::RemainderNoCommitment => "remainder-after-queries",
         Strat::SwitchLayer { .. } => "switch-layer",
         Strat::WrongAlpha { crafted: false, .. } => "wrong-alpha",
         _ => "",
